@@ -129,6 +129,16 @@ pub fn c13(ctx: &mut Ctx, acc: &mut Acc) -> i32 {
                         _ => false,
                     };
                     if ok {
+                        if idx == 0 && acc.samples.len() < 4 {
+                            acc.sample(
+                                J::obj()
+                                    .with("written_by", J::s(sa.id()))
+                                    .with("read_by_extension", J::s(sb.id()))
+                                    .with("constructor", J::s(name.clone()))
+                                    .with("sorted_constructors", J::Bool(ea.sorted))
+                                    .with("bytes", J::s(short(&bytes))),
+                            );
+                        }
                         acc.count("old_data_keeps_its_meaning");
                         if ea.sorted {
                             acc.count("old_data_keeps_its_meaning_sorted");
